@@ -82,6 +82,7 @@ class AnnounceOracle:
         self.tau = self.timings["SEND_COLLECTION_TIMEOUT"]
         self.insts = [Inst(i, c, timings) for i, c in enumerate(instances)]
         self.helper = None
+        self.helper_cfg = helper
         if helper:
             self.helper = Inst("H", helper, timings)
             self.insts.append(self.helper)
@@ -140,7 +141,11 @@ class AnnounceOracle:
                 return
 
     def _stop(self, ins, T):
-        if not ins.running or ins.broken:
+        if ins.broken:
+            if ins in self.await_draw:
+                self.await_draw.remove(ins)  # its task was cancelled before it drew
+            return
+        if not ins.running:
             return
         ins.running = False
         never_ran = ins in self.await_draw
@@ -198,7 +203,17 @@ class AnnounceOracle:
                     self._stop(i, T)
         elif f in ("announce", "helper_start_announce"):
             i = self.helper if f.startswith("helper") else self.insts[a[0]]
-            if not i.announced:
+            if f.startswith("helper") and i.announced and i.broken:
+                # SimpleService.start_announce() after a stop_announce() that raised (known finding): the library registers
+                # a second ServiceInstance for the helper; nothing is judged for it, but its offer task draws its delay in turn
+                ghost = Inst("H'", self.helper_cfg, self.timings)
+                ghost.broken = True
+                ghost.announced = True
+                self.insts.append(ghost)
+                self.order.append(ghost)
+                if self.started:
+                    self._start(ghost, T)
+            elif not i.announced:
                 i.announced = True
                 self.order.append(i)
                 if self.started:
